@@ -20,6 +20,8 @@ package presign
 //@   ensures[C20] result1 != nil ==> result0 == nil
 //@   ensures[C20] result1 == nil ==> (c != nil && lastresult(CanSign) && result0 != nil)
 //@   loop 1: invariant PublicKey != nil && fresh(ECDSA) && fresh(ElGamal) && fresh(Paillier) && fresh(Pedersen)
+// (induction on the session object) on success the next round starts from the state invariant its methods assume
+//@   ensures result1 == nil ==> (typeis(result0, *presign1) && ps1ok(result0.(*presign1)))
 
 //@ func StartPresignOnline$1
 // (C09) the session tag is derived under this protocol's OWN identifier (pairwise distinct across all start functions)
@@ -144,11 +146,15 @@ package presign
 //@   nopanic[C05]
 //@   use bits
 //@   requires ps1ok(r) && psall(r) && out != nil && !closed(out)
+// (induction on the session object) on success the next round starts from the state invariant its methods assume
+//@   ensures result1 == nil ==> (typeis(result0, *presign2) && ps2ok(result0.(*presign2)) && result0.(*presign2).presign1 == r && result0.(*presign2).GammaShare != nil && result0.(*presign2).KShare != nil && result0.(*presign2).GNonce != nil)
 //@ func (*presign2).Finalize
 //@   nopanic[C05]
 //@   use bits
 //@   requires ps2ok(r) && psall(r.presign1) && out != nil && !closed(out) && r.GammaShare != nil && r.GNonce != nil
 //@   requires forall(j, party.ID, inslice(r.Helper.partyIDs, j) ==> (r.K[j] != nil && r.K[j].c != nil && r.G[j] != nil && r.G[j].c != nil))
+// (induction on the session object) on success the next round starts from the state invariant its methods assume
+//@   ensures result1 == nil ==> (typeis(result0, *presign3) && ps3ok(result0.(*presign3)) && result0.(*presign3).presign2 == r && result0.(*presign3).DeltaShareBeta != nil && result0.(*presign3).ChiShareBeta != nil)
 //@ func (*presign3).Finalize
 //@   nopanic[C05]
 //@   requires ps3ok(r) && psall(r.presign1) && out != nil && !closed(out) && r.GammaShare != nil && r.KShare != nil && r.DeltaShareBeta != nil && r.ChiShareBeta != nil
@@ -167,10 +173,14 @@ package presign
 //@   loop 1: invariant forall(j, party.ID, inslice(r.Helper.otherPartyIDs, j) ==> r.ChiCiphertext[j] != nil)
 //@   loop 1: invariant forall(j, party.ID, inslice(r.Helper.otherPartyIDs, j) ==> r.DeltaShareBeta[j] != nil)
 //@   loop 1: invariant forall(j, party.ID, inslice(r.Helper.otherPartyIDs, j) ==> r.ChiShareBeta[j] != nil)
+// (induction on the session object) on success the next round starts from the state invariant its methods assume
+//@   ensures (result1 == nil && typeis(result0, *presign4)) ==> (ps4ok(result0.(*presign4)) && result0.(*presign4).presign3 == r && result0.(*presign4).ChiShare != nil && result0.(*presign4).ElGamalChiNonce != nil)
 //@ func (*presign4).Finalize
 //@   nopanic[C05]
 //@   use bits
 //@   requires ps4ok(r) && psall(r.presign1) && out != nil && !closed(out) && r.GammaShare != nil && r.GNonce != nil && r.G[r.Helper.info.SelfID] != nil && r.G[r.Helper.info.SelfID].c != nil
+// (induction on the session object) on success the next round starts from the state invariant its methods assume
+//@   ensures result1 == nil ==> (typeis(result0, *presign5) && ps5ok(result0.(*presign5)) && result0.(*presign5).presign4 == r)
 //@ func (*presign5).Finalize
 //@   nopanic[C05]
 //@   requires ps5ok(r) && psall(r.presign1) && out != nil && !closed(out) && r.KShare != nil && r.ElGamalKNonce != nil
@@ -179,6 +189,8 @@ package presign
 //@   loop 1: invariant Gamma != nil
 // opening a ciphertext for an abort message: the ciphertext must validate under our key (then decryption with
 // randomness cannot fail; its error is ignored by the code)
+// (induction on the session object) on success the next round starts from the state invariant its methods assume
+//@   ensures result1 == nil ==> (typeis(result0, *presign6) && ps6ok(result0.(*presign6)) && result0.(*presign6).presign5 == r)
 //@ func proveNth
 //@   nopanic[C05]
 //@   requires hash != nil && hash.h != nil && paillier.skwf(paillierSecret) && paillier.ctvalid(paillierSecret.PublicKey, c)
@@ -195,6 +207,8 @@ package presign
 //@   loop 2: invariant BigDeltaActual != nil
 //@   loop 3: invariant ps6ok(r) && psall(r.presign1) && psopen(r.presign3) && DeltaProofs != nil
 //@   loop 4: invariant RBar != nil && DeltaInv != nil
+// (induction on the session object) on success the next round starts from the state invariant its methods assume
+//@   ensures (result1 == nil && typeis(result0, *presign7)) ==> (ps7ok(result0.(*presign7)) && result0.(*presign7).presign6 == r && result0.(*presign7).RBar != nil)
 //@ func (*presign7).Finalize
 //@   nopanic[C05]
 //@   requires ps7ok(r) && psall(r.presign1) && psopen(r.presign3) && out != nil && !closed(out) && r.KShare != nil && r.ChiShare != nil && r.ElGamalChiNonce != nil && r.PublicKey != nil && r.RBar != nil && r.ChiShareAlpha != nil
